@@ -11,6 +11,11 @@ no operation reads or writes outside the buffer's own storage."
 All sizes are `size_t` values (`Op.wf`), all index arithmetic of the model wraps like the code's,
 and every operation takes the allocator's answers as an oracle (`Alloc`); the theorems hold for
 every oracle.  An operation that reports failure is a no-op on the representation.
+
+`C07_fifo_byte_queue` is the property statement as one theorem (refinement + size + bounds + reservation +
+copy independence + moved-from/reset); the theorems before it are its parts and the exact contracts
+(reservation, strong exception guarantee of composite copies, aliasing of source / destination with the
+buffer's own or another buffer's storage, pointer epochs).
 -/
 import TboxModel.C07.BufLemmas
 namespace Tbox.C07
@@ -117,6 +122,29 @@ theorem C07_step_safe (al : Alloc) (s : Store) (op : Op) (h : StoreInv s)
           · exact ha.2.2.2.2.2.2 a hmem
         · exact ⟨h, by simpa [Out.ofRes] using he.2.2⟩
       · exact ⟨h, by simp⟩
+  | appendFrom i j off k =>
+      simp only [step]
+      split
+      · exact ⟨h, by simp⟩
+      · rename_i hcond
+        have hc' : ¬ (off + k > (s.get j).readableSize) := fun hgt => hcond (Or.inr hgt)
+        have := append_spec al (s.get i) (((s.get j).readable.drop off).take k) (get_inv s i h)
+        refine ⟨put_res_inv _ _ _ h (fun e => (this.1 e).1) (fun e => (this.2.1 e).1), ?_⟩
+        intro a ha
+        simp only [ofRes_accesses] at ha
+        split at ha
+        · rcases List.mem_cons.1 ha with rfl | ha
+          · exact appendFrom_source_ok _ off k (get_inv s j h) hc'
+          · exact this.2.2 a ha
+        · exact this.2.2 a ha
+  | fetchSelf i n =>
+      by_cases hst : ((s.get i).ensure al (if n > (s.get i).readableSize then (s.get i).readableSize else n)).st = .ok
+      · have := fetchSelf_spec al (s.get i) n (get_inv s i h) hst
+        simp only [step, hst, ↓reduceIte]
+        exact ⟨put_inv _ _ _ h this.2.1, this.2.2.2.2⟩
+      · have he := ensure_spec al (s.get i) (if n > (s.get i).readableSize then (s.get i).readableSize else n) (get_inv s i h)
+        simp only [step, hst, ↓reduceIte]
+        exact ⟨h, he.2.2⟩
   | reserve i n =>
       have := ensure_spec al (s.get i) n (get_inv s i h)
       exact ⟨put_res_inv _ _ _ h (fun e => (this.1 e).1) this.2.1, by simpa [step, Out.ofRes] using this.2.2⟩
@@ -199,6 +227,19 @@ theorem C07_fail_noop (al : Alloc) (s : Store) (op : Op) (h : StoreInv s)
           simp [hcond, hst, Out.failed, Out.ofRes, ha.2.1] at hf
         · rfl
       · rfl
+  | appendFrom i j off k =>
+      simp only [step] at hf ⊢
+      split
+      · rfl
+      · rename_i hcond; simp only [hcond, ↓reduceIte] at hf
+        have hx := (append_spec al (s.get i) (((s.get j).readable.drop off).take k) (get_inv s i h)).2.1
+        have hne : ((s.get i).append al (((s.get j).readable.drop off).take k)).st ≠ .ok := by
+          simpa [Out.failed, Out.ofRes] using hf
+        rw [(hx hne).1]; exact put_get_self s i
+  | fetchSelf i n =>
+      by_cases hst : ((s.get i).ensure al (if n > (s.get i).readableSize then (s.get i).readableSize else n)).st = .ok
+      · simp [step, hst, Out.failed] at hf
+      · simp only [step, hst, ↓reduceIte]
   | reserve i n =>
       simp only [step] at hf ⊢
       have := (ensure_spec al (s.get i) n (get_inv s i h)).2.1
@@ -287,6 +328,21 @@ theorem C07_step_refines (al : Alloc) (s : Store) (op : Op) (h : StoreInv s) (hc
           · rename_i hst
             simp [step, hcond, hst, Out.failed, Out.ofRes] at hf'
         · simp
+    | appendFrom i j off k =>
+        have hl := len_readable (s.get j) (get_inv s j h)
+        simp only [step, specStep, abs_get, hl] at hf' ⊢
+        split
+        · simp
+        · rename_i hcond; simp only [hcond, ↓reduceIte] at hf'
+          have hst : ((s.get i).append al (((s.get j).readable.drop off).take k)).st = .ok := by
+            simpa [Out.failed, Out.ofRes] using hf'
+          have := (append_spec al (s.get i) _ (get_inv s i h)).1 hst
+          simp [abs_put, this.2.1, Out.ofRes]
+    | fetchSelf i n =>
+        by_cases hst : ((s.get i).ensure al (if n > (s.get i).readableSize then (s.get i).readableSize else n)).st = .ok
+        · have := fetchSelf_spec al (s.get i) n (get_inv s i h) hst
+          simp only [step, hst, ↓reduceIte, specStep, abs_get, abs_put, this.2.2.1, this.2.2.2.1, and_self]
+        · simp [step, hst, Out.failed, Out.ofRes] at hf'
     | reserve i n =>
         have hst : ((s.get i).ensure al n).st = .ok := by simpa [step, Out.failed, Out.ofRes] using hf'
         have := (ensure_spec al (s.get i) n (get_inv s i h)).1 hst
@@ -557,6 +613,282 @@ theorem C07_storage_epoch (al : Alloc) (b : Buf) (n : Nat) (h : b.Inv) :
       by_cases hal : al (growSize b.w n) = true <;> simp [Buf.regrow, hal]
     (repeat' split) <;> simp_all [Buf.compact]
 
+
+/-! ### frame: an operation touches only the buffers it names -/
+
+theorem get_put_ne (s : Store) (i k : Nat) (b : Buf) (h : k ≠ i) : (s.put i b).get k = s.get k := by
+  unfold Store.get Store.put
+  rw [List.getD_eq_getElem?_getD, List.getD_eq_getElem?_getD, List.getElem?_set_ne (Ne.symm h)]
+
+theorem get_put_self (s : Store) (i : Nat) (b : Buf) (h : i < s.length) : (s.put i b).get i = b := by
+  unfold Store.get Store.put
+  rw [List.getD_eq_getElem?_getD, List.getElem?_set_self h]; rfl
+
+theorem step_frame (al : Alloc) (s : Store) (op : Op) (k : Nat) (hk : k ∉ op.slots) :
+    (step al s op).1.get k = s.get k := by
+  cases op <;> simp only [Op.slots, List.mem_cons, List.not_mem_nil, or_false, not_or] at hk <;>
+    simp only [step] <;> (repeat' split) <;>
+    first
+      | rfl
+      | exact get_put_ne _ _ _ _ hk
+      | (rw [get_put_ne _ _ _ _ hk.2, get_put_ne _ _ _ _ hk.1])
+      | (rw [get_put_ne _ _ _ _ hk.1, get_put_ne _ _ _ _ hk.2])
+      | exact get_put_ne _ _ _ _ hk.1
+      | exact get_put_ne _ _ _ _ hk.2
+
+theorem run_frame (s : Store) (ops : List (Alloc × Op)) (k : Nat) (hk : ∀ aop ∈ ops, k ∉ aop.2.slots) :
+    (run s ops).1.get k = s.get k := by
+  induction ops generalizing s with
+  | nil => rfl
+  | cons aop ops ih =>
+      obtain ⟨al, op⟩ := aop
+      simp only [run]
+      rw [ih _ (fun o ho => hk o (List.mem_cons_of_mem _ ho))]
+      exact step_frame al s op k (hk (al, op) List.mem_cons_self)
+
+
+theorem put_put_same (s : Store) (i : Nat) (a b : Buf) : (s.put i a).put i b = s.put i b := by
+  unfold Store.put; exact List.set_set _
+
+/-- **C07_copy_independent.** "A copy is independent of its source": after `dst = src` succeeded,
+(1) whatever is done afterwards to buffers other than the copy — in particular to the source: append,
+consume, reset, reallocation, destruction and reconstruction — the copy still holds the bytes the source
+held at the time of the copy; (2) whatever is done afterwards to buffers other than the source — in
+particular to the copy — leaves the source identical (storage, indices, content).  For every
+allocator behaviour and every operation sequence. -/
+theorem C07_copy_independent (al : Alloc) (s : Store) (dst src : Nat) (h : StoreInv s) (hd : dst < s.length)
+    (hne : dst ≠ src) (hok : (step al s (.copyAssign dst src)).2.failed = false) (ops : List (Alloc × Op)) :
+    ((∀ aop ∈ ops, dst ∉ aop.2.slots) →
+      ((run (step al s (.copyAssign dst src)).1 ops).1.get dst).readable = (s.get src).readable) ∧
+    ((∀ aop ∈ ops, src ∉ aop.2.slots) →
+      (run (step al s (.copyAssign dst src)).1 ops).1.get src = s.get src) := by
+  refine ⟨fun hk => ?_, fun hk => ?_⟩
+  · rw [run_frame _ ops dst hk]; exact C07_copy_equal al s dst src h hd hne hok
+  · rw [run_frame _ ops src hk]
+    simp only [step, hne, ↓reduceIte]
+    exact get_put_ne _ _ _ _ (Ne.symm hne)
+
+/-! ### composite statements and the strong exception guarantee -/
+
+/-- a composite statement sequence that may be cut short by `std::bad_alloc` is a run of a prefix of
+it: every theorem about `run` (refinement, bounds, invariant) covers composite operations. -/
+theorem C07_script_is_run (s : Store) (ops : List (Alloc × Op)) :
+    ∃ k, runUntilThrow s ops = run s (ops.take k) := by
+  induction ops generalizing s with
+  | nil => exact ⟨0, rfl⟩
+  | cons aop ops ih =>
+      obtain ⟨al, op⟩ := aop
+      by_cases hb : (step al s op).2.st = .badAlloc
+      · exact ⟨1, by simp [runUntilThrow, run, hb]⟩
+      · obtain ⟨k, hk⟩ := ih (step al s op).1
+        exact ⟨k + 1, by simp [runUntilThrow, run, hb, hk]⟩
+
+/-- **C07_roundtrip_strong.** `{ Buffer c(b); b = c; }` — two allocations inside one composite
+operation, each with its own allocator answer: if EITHER throws, the store is exactly what it was
+(strong guarantee: storage, indices, content of `b`; the temporary is gone); if both succeed `b`
+holds the same bytes.  `t` is the temporary's slot (empty before and after). -/
+theorem C07_roundtrip_strong (al1 al2 al3 : Alloc) (s : Store) (i t : Nat) (h : StoreInv s)
+    (hi : i < s.length) (ht : t < s.length) (hne : i ≠ t) (hempty : s.get t = Buf.empty) :
+    let r := runScript s [(al1, .copyCtor t i), (al2, .copyAssign i t)] [(al3, .reset t)]
+    StoreInv r.1 ∧ r.1.get t = Buf.empty ∧ (r.1.get i).readable = (s.get i).readable ∧
+    ((∃ o ∈ r.2, o.failed = true) → r.1 = s) := by
+  have hne' : t ≠ i := Ne.symm hne
+  have hreset : ∀ s' : Store, (step al3 s' (.reset t)).1 = s'.put t Buf.empty := fun _ => rfl
+  by_cases hf1 : (step al1 s (.copyCtor t i)).2.failed = true
+  · -- the copy constructor throws: nothing was built
+    have hn := C07_fail_noop al1 s _ h hf1
+    have hb : (step al1 s (.copyCtor t i)).2.st = .badAlloc := by
+      simp only [step, hne', ↓reduceIte] at hf1 ⊢
+      have := (cloneInto_spec al1 (s.get t) (s.get i) (get_inv s i h))
+      unfold Buf.cloneInto at hf1 ⊢
+      (repeat' split) <;> simp_all [Out.failed, Out.ofRes]
+    have hfin : (runScript s [(al1, .copyCtor t i), (al2, .copyAssign i t)] [(al3, .reset t)]).1 = s := by
+      simp only [runScript, runUntilThrow, run, hb, ↓reduceIte, hn, hreset]
+      rw [← hempty]; exact put_get_self s t
+    simp only
+    rw [hfin]
+    exact ⟨h, hempty, rfl, fun _ => rfl⟩
+  · have hf1' : (step al1 s (.copyCtor t i)).2.failed = false := by simpa using hf1
+    have hb1 : (step al1 s (.copyCtor t i)).2.st ≠ .badAlloc := by
+      intro hb; simp [Out.failed, hb] at hf1'
+    have hs1 : StoreInv (step al1 s (.copyCtor t i)).1 := (C07_step_safe al1 s _ h rfl rfl).1
+    have hr1 := (C07_step_refines al1 s (.copyCtor t i) h rfl).1
+    rw [hf1'] at hr1
+    -- the temporary holds b's bytes, b is untouched
+    have hgi : (step al1 s (.copyCtor t i)).1.get i = s.get i := by
+      simp only [step, hne', ↓reduceIte]; exact get_put_ne _ _ _ _ hne
+    have hgt : ((step al1 s (.copyCtor t i)).1.get t).readable = (s.get i).readable := by
+      have := congrArg (fun q => Spec.get q t) hr1
+      simp only [abs_get, specStepF, specStep, hne', ↓reduceIte, Bool.false_eq_true] at this
+      rw [this]
+      have ht' : t < (abs s).length := by simpa [abs] using ht
+      simp [Spec.get, Spec.put, ht', ← abs_get]
+    have hput1 : (step al1 s (.copyCtor t i)).1 = s.put t ((step al1 s (.copyCtor t i)).1.get t) := by
+      simp only [step, hne', ↓reduceIte]
+      rw [get_put_self _ _ _ ht]
+    generalize hS1 : (step al1 s (.copyCtor t i)).1 = s1 at *
+    by_cases hf2 : (step al2 s1 (.copyAssign i t)).2.failed = true
+    · have hn2 := C07_fail_noop al2 s1 _ hs1 hf2
+      have hfin : (runScript s [(al1, .copyCtor t i), (al2, .copyAssign i t)] [(al3, .reset t)]).1 = s := by
+        simp only [runScript, runUntilThrow, run, hb1, ↓reduceIte, hS1, hn2, hreset]
+        split <;> (rw [hput1, put_put_same, ← hempty]; exact put_get_self s t)
+      simp only
+      rw [hfin]
+      exact ⟨h, hempty, rfl, fun _ => rfl⟩
+    · have hf2' : (step al2 s1 (.copyAssign i t)).2.failed = false := by simpa using hf2
+      have hb2 : (step al2 s1 (.copyAssign i t)).2.st ≠ .badAlloc := by
+        intro hb; simp [Out.failed, hb] at hf2'
+      have hs2 : StoreInv (step al2 s1 (.copyAssign i t)).1 := (C07_step_safe al2 s1 _ hs1 rfl rfl).1
+      have hi1 : i < s1.length := by rw [hput1]; simpa [Store.put] using hi
+      have hc := C07_copy_equal al2 s1 i t hs1 hi1 hne hf2'
+      have hfin : (runScript s [(al1, .copyCtor t i), (al2, .copyAssign i t)] [(al3, .reset t)]).1 =
+          (step al2 s1 (.copyAssign i t)).1.put t Buf.empty := by
+        simp only [runScript, runUntilThrow, run, hb1, hb2, ↓reduceIte, hS1, hreset]
+      have hlen2 : t < (step al2 s1 (.copyAssign i t)).1.length := by
+        simp only [step, hne, ↓reduceIte, Store.put, List.length_set]
+        rw [hput1]; simpa [Store.put] using ht
+      have houts : (runScript s [(al1, .copyCtor t i), (al2, .copyAssign i t)] [(al3, .reset t)]).2 =
+          [(step al1 s (.copyCtor t i)).2, (step al2 s1 (.copyAssign i t)).2, (step al3 (step al2 s1 (.copyAssign i t)).1 (.reset t)).2] := by
+        simp only [runScript, runUntilThrow, run, hb1, hb2, ↓reduceIte, hS1, List.cons_append, List.nil_append]
+      simp only
+      rw [hfin]
+      refine ⟨put_inv _ _ _ hs2 empty_inv, get_put_self _ _ _ hlen2, ?_, ?_⟩
+      · rw [get_put_ne _ _ _ _ hne, hc, hgt]
+      · rintro ⟨o, ho, hof⟩
+        rw [houts] at ho
+        simp only [List.mem_cons, List.not_mem_nil, or_false] at ho
+        rcases ho with rfl | rfl | rfl
+        · rw [hf1'] at hof; cases hof
+        · rw [hf2'] at hof; cases hof
+        · simp [step, Out.failed] at hof
+
+/-- **C07_shrink_strong.** `shrink()` (clone into a temporary, swap, destroy the temporary): one
+allocation; if it throws the buffer is identical and nothing was released; if it succeeds the
+content is the same, the storage is exactly as large as the content and the read offset is 0. -/
+theorem C07_shrink_strong (al : Alloc) (b : Buf) (h : b.Inv) :
+    ((b.shrink al).st = .ok →
+      (b.shrink al).buf.readable = b.readable ∧ (b.shrink al).buf.mem.length = b.readableSize ∧
+      (b.shrink al).buf.r = 0 ∧ (b.shrink al).buf.Inv ∧ (b.shrink al).dels = b.owns) ∧
+    ((b.shrink al).st ≠ .ok → (b.shrink al).buf = b ∧ (b.shrink al).st = .badAlloc ∧ (b.shrink al).dels = 0) ∧
+    (b.shrink al).news ≤ 1 := by
+  have c := cloneInto_spec al b b h
+  have hl := len_readable b h
+  rw [shrink_eq]
+  refine ⟨fun hst => ⟨(c.1 hst).2, ?_, ?_, (c.1 hst).1, ?_⟩, fun hne => ⟨c.2.1 hne, ?_, ?_⟩, ?_⟩ <;>
+    (unfold Buf.cloneInto at *; (repeat' split) <;> simp_all)
+
+/-- **C07_fetch_into_writable.** `b.fetch(b.writableBegin(), n)` with room for the bytes: source
+`[r, r+k)` and destination `[w, w+k)` of the `memcpy` never overlap (`k ≤ w − r`), both lie inside the
+block, the caller finds exactly the fetched bytes at the destination, and the queue loses exactly them. -/
+theorem C07_fetch_into_writable (b : Buf) (n : Nat) (h : b.Inv)
+    (hk : b.w + min n (b.w - b.r) ≤ b.mem.length) :
+    (b.fetchIntoRaw b.w n).2.2 = .none ∧ (b.fetchIntoRaw b.w n).1.buf.Inv ∧
+    (b.fetchIntoRaw b.w n).1.buf.readable = b.readable.drop n ∧
+    (b.fetchIntoRaw b.w n).2.1 = b.readable.take n ∧
+    (b.fetchIntoRaw b.w n).1.buf.mem.length = b.mem.length ∧
+    ((b.fetchIntoRaw b.w n).1.buf.mem.drop b.w).take (min n (b.w - b.r)) = b.readable.take n ∧
+    (b.fetchIntoRaw b.w n).1.st = .ok ∧
+    (∀ a ∈ (b.fetchIntoRaw b.w n).1.acc, a.ok) :=
+  fetchIntoRaw_writable b n h hk
+
+/-- **C07_fetch_into_own_counterexample.** A destination inside the readable window is outside the
+contract: `fetch(readableBegin() + 1, 3)` on `1 2 3 4` is a `memcpy` with overlapping operands; and a
+destination behind the storage (`writableBegin()` of a full buffer) is an out-of-bounds write. -/
+theorem C07_fetch_into_own_counterexample :
+    (let b : Buf := { mem := [1, 2, 3, 4, 0, 0], r := 0, w := 4 }
+     b.Inv ∧ (b.fetchIntoRaw 1 3).2.2 = .overlap) ∧
+    (let b : Buf := { mem := [1, 2, 3, 4], r := 0, w := 4 }
+     b.Inv ∧ (∃ a ∈ (b.fetchIntoRaw b.w 2).1.acc, ¬ a.ok)) := by
+  decide +kernel
+
+/-- **C07_append_from_other.** `b_i.append(b_j.readableBegin() + off, k)` with `i ≠ j`: whatever the
+append does to `b_i` (compaction, reallocation, failure), `b_j` stays identical, the source range lies
+inside `b_j`'s block, and `b_i` gains exactly that slice of `b_j`'s queue. -/
+theorem C07_append_from_other (al : Alloc) (s : Store) (i j off k : Nat) (h : StoreInv s)
+    (hi : i < s.length) (hne : i ≠ j) (hk : off + k ≤ (s.get j).readableSize) :
+    (step al s (.appendFrom i j off k)).1.get j = s.get j ∧
+    (∀ a ∈ (step al s (.appendFrom i j off k)).2.accesses, a.ok) ∧
+    ((step al s (.appendFrom i j off k)).2.failed = false →
+      ((step al s (.appendFrom i j off k)).1.get i).readable =
+        (s.get i).readable ++ ((s.get j).readable.drop off).take k) ∧
+    ((step al s (.appendFrom i j off k)).2.failed = true → (step al s (.appendFrom i j off k)).1 = s) := by
+  have hc : ¬ (i = j ∨ off + k > (s.get j).readableSize) := by
+    intro hc; rcases hc with hc | hc
+    · exact hne hc
+    · omega
+  have hwf : (Op.appendFrom i j off k).wf = true := by
+    have hj := get_inv s j h
+    rw [readableSize_eq _ hj] at hk
+    obtain ⟨_, h2, h3⟩ := hj
+    simp only [Op.wf, decide_eq_true_eq, Bool.decide_and, Bool.and_eq_true]
+    omega
+  refine ⟨?_, (C07_step_safe al s _ h hwf rfl).2, ?_, C07_fail_noop al s _ h⟩
+  · simp only [step, hc, ↓reduceIte]; exact get_put_ne _ _ _ _ (Ne.symm hne)
+  · intro hok
+    simp only [step, hc, ↓reduceIte] at hok ⊢
+    have hst : ((s.get i).append al (((s.get j).readable.drop off).take k)).st = .ok := by
+      simpa [Out.failed, Out.ofRes] using hok
+    rw [get_put_self _ _ _ hi]
+    exact ((append_spec al (s.get i) _ (get_inv s i h)).1 hst).2.1
+
+
+/-! ### the property, in one statement -/
+
+/-- **C07_fifo_byte_queue.** The property statement as ONE theorem.  For every consistent store of
+buffers (in particular the initial one, any initial capacities), every sequence of well-formed
+in-contract operations — append, append from own / foreign storage, reserve-write-commit, fetch
+(also into the own writable region), consume, consume-all, shrink, copy, move, swap, reset,
+(re)construction — with every combination of `size_t` sizes, and every answer of the allocator to
+every request:
+1. the bytes obtained by reading are exactly the bytes previously written, in order and once each:
+   contents and fetched bytes are those of the FIFO specification in which failed operations are skipped;
+2. the readable size of every buffer is the length of its queue (bytes written − bytes consumed);
+3. every buffer stays consistent and no `memcpy`/`memmove` touches memory outside the storage it names;
+4. a reservation of ANY size on ANY buffer reached either reports success with `n` bytes physically
+   behind the write index and the content unchanged, or reports failure and changes nothing;
+5. a copy made at this point is independent of its source (both directions, for every continuation),
+   and a moved-from or reset buffer is empty (and, being a consistent buffer, reusable: 1–5 apply to it). -/
+theorem C07_fifo_byte_queue (s : Store) (ops : List (Alloc × Op)) (h : StoreInv s)
+    (hc : ∀ aop ∈ ops, aop.2.wf = true ∧ aop.2.inContract = true) :
+    (abs (run s ops).1 = (specRun (abs s) (failures s ops)).1 ∧
+     (run s ops).2.map (·.fetched) = (specRun (abs s) (failures s ops)).2) ∧
+    (∀ i, ((run s ops).1.get i).readableSize = (Spec.get (specRun (abs s) (failures s ops)).1 i).length) ∧
+    (StoreInv (run s ops).1 ∧ ∀ o ∈ (run s ops).2, ∀ a ∈ o.accesses, a.ok) ∧
+    (∀ b ∈ (run s ops).1, ∀ (al : Alloc) (n : Nat),
+      ((b.ensure al n).st = .ok →
+        (b.ensure al n).buf.w + n ≤ (b.ensure al n).buf.mem.length ∧ (b.ensure al n).buf.writable ≥ n ∧
+        (b.ensure al n).buf.readable = b.readable ∧ (b.ensure al n).buf.Inv) ∧
+      ((b.ensure al n).st ≠ .ok → (b.ensure al n).buf = b)) ∧
+    (∀ (al : Alloc) (dst src : Nat), dst < (run s ops).1.length → dst ≠ src →
+      (step al (run s ops).1 (.copyAssign dst src)).2.failed = false → ∀ ops' : List (Alloc × Op),
+      ((∀ aop ∈ ops', dst ∉ aop.2.slots) →
+        ((run (step al (run s ops).1 (.copyAssign dst src)).1 ops').1.get dst).readable = ((run s ops).1.get src).readable) ∧
+      ((∀ aop ∈ ops', src ∉ aop.2.slots) →
+        (run (step al (run s ops).1 (.copyAssign dst src)).1 ops').1.get src = (run s ops).1.get src)) ∧
+    (∀ (al : Alloc) (dst src : Nat), src < (run s ops).1.length → dst ≠ src →
+      ((step al (run s ops).1 (.moveAssign dst src)).1.get src).readable = [] ∧
+      ((step al (run s ops).1 (.reset src)).1.get src).readable = []) := by
+  have hrw : ∀ aop ∈ ops, aop.2.wf = true ∧ aop.2.rwcOk = true := by
+    intro aop ha
+    have := hc aop ha
+    refine ⟨this.1, ?_⟩
+    have h2 := this.2
+    cases hop : aop.2 <;> simp_all [Op.inContract, Op.rwcOk]
+  have hR := C07_refines_fifo s ops h hc
+  have hB := C07_in_bounds s ops h hrw
+  refine ⟨hR, ?_, hB, ?_, ?_, ?_⟩
+  · intro i
+    rw [← hR.1, abs_get]
+    exact C07_size _ (get_inv _ i hB.1)
+  · intro b hb al n
+    have := C07_reserve al b n (hB.1 b hb)
+    exact ⟨this.1, this.2.1⟩
+  · intro al dst src hd hne hok ops'
+    exact C07_copy_independent al _ dst src hB.1 hd hne hok ops'
+  · intro al dst src hs hne
+    exact C07_moved_from_empty al _ dst src hs hne
+
+
 /-! ### non-vacuity: the hypotheses are met by a concrete, non-trivial run -/
 
 example : StoreInv init := init_inv
@@ -575,6 +907,33 @@ example :
     (∀ aop ∈ ops, aop.2.wf = true ∧ aop.2.rwcOk = true) ∧
     (run init ops).2.map (·.fetched) = [[], [], [], [], [], [], [], [2,3], [], [2,3,4,5], [], [], []] ∧
     (run init ops).2.map (·.failed) = [false, false, false, true, false, true, false, false, false, false, false, true, false] := by
+  decide +kernel
+
+/-- the extended operation set, a composite with its temporary in slot 4, and the hypotheses of the
+strong-guarantee / independence / aliasing theorems on concrete states -/
+example :
+    let ops : List (Alloc × Op) :=
+      [(okAl, .append 0 [1,2,3,4,5]), (okAl, .consume 0 1), (okAl, .appendFrom 1 0 1 2), (okAl, .fetchSelf 0 3),
+       (noAl, .appendFrom 2 0 0 1), (okAl, .appendSelf 1 0 2), (okAl, .fetchSelf 1 100)]
+    (∀ aop ∈ ops, aop.2.wf = true ∧ aop.2.inContract = true) ∧
+    (run init ops).2.map (·.fetched) = [[], [], [], [2,3,4], [], [], [3,4,3,4]] ∧
+    ((run init ops).1.get 0).readable = [5] := by
+  decide +kernel
+
+example :
+    let s : Store := [{ mem := [7, 8, 9, 0], r := 1, w := 3 }, Buf.mk' 2, Buf.empty]
+    (∀ b ∈ s, b.Inv) ∧ (0 : Nat) < s.length ∧ (2 : Nat) < s.length ∧ s.get 2 = Buf.empty ∧
+    -- both allocations succeed / the second one throws
+    ((runScript s [(okAl, .copyCtor 2 0), (okAl, .copyAssign 0 2)] [(okAl, .reset 2)]).1.get 0).mem = [8, 9] ∧
+    (runScript s [(okAl, .copyCtor 2 0), (noAl, .copyAssign 0 2)] [(okAl, .reset 2)]).1 = s ∧
+    (runScript s [(okAl, .copyCtor 2 0), (noAl, .copyAssign 0 2)] [(okAl, .reset 2)]).2.map (·.failed) = [false, true, false] ∧
+    -- hypotheses of C07_copy_independent / C07_append_from_other
+    (step okAl s (.copyAssign 1 0)).2.failed = false ∧ 0 + 2 ≤ (s.get 0).readableSize := by
+  decide +kernel
+
+example :
+    let b : Buf := { mem := [1, 2, 3, 4, 0, 0, 0], r := 1, w := 4 }
+    b.Inv ∧ b.w + min 9 (b.w - b.r) ≤ b.mem.length ∧ (b.fetchIntoRaw b.w 9).2.1 = [2, 3, 4] := by
   decide +kernel
 
 example : (Buf.mk' 8).Inv ∧ (Buf.mk' 8).needsGrowth 9 ∧ ¬ (((Buf.mk' 8).w + 9223372036854775808) * 2 < W) := by
